@@ -88,6 +88,12 @@ BASE_ASSUME = [
     "every replayed step compares all datagrams received by all endpoints and the projected tables of all clients with the spec",
 ]
 
+def c13_run(ctx):
+    n = 30 if ctx.tier == "quick" else 400
+    ctx.model_check("MC_clientconn.tla", "MC_clientconn.cfg", None)
+    ctx.trace_validate("clientconn", "TestClientConnTrace", "TraceClientConn.tla", "TraceClientConn.cfg", n)
+
+
 PROPS = {
     "C01": dict(title="client data leaves only toward authorised peers", level="model_checking",
                 run=core_run(["MC_relay", "MC_relayB"], ["GEN_relayA", "GEN_relayB", "GEN_relayD", "GEN_v6"]),
@@ -137,6 +143,13 @@ PROPS = {
                              "two concurrent transactions; RTO 100, 200, 500, 1000, 1600 ms; write failures on the 1st, 2nd and 7th transmission; responses, duplicates, late and foreign-id responses at every modelled instant; Close at any point",
                              "liveness C12_Terminates is checked by TLC under weak fairness of time on the timer-to-timer abstraction (MC_clienttxnLive); on the code, termination is observed for every replayed path (virtual time runs until the spec says the caller has returned)",
                              "interleavings inside one instant (a response racing a timer callback while a slow socket write holds the table lock) are not enumerated by this request-atomic model"]),
+    "C13": dict(title="the relayed socket honours the PacketConn contract over TURN", level="model_checking",
+                run=c13_run,
+                assumptions=["Engine B: executions are recorded from the real turn.Client + UDPConn against a scripted server in virtual time by a seeded random driver that is not derived from the spec "
+                             "(6 peers on 3 IPs, up to 3 concurrent writers toward different IPs, idle periods up to 45 s, inbound bursts of 1000-1200 messages, reads with deadlines, Close; server reactions success / 400 / 403 / 438 / silence)",
+                             "TLC replays every recorded event through the actions of ClientConn.tla (TraceClientConn.tla) and checks the invariants at every step; a rejected event is a violation",
+                             "wire events are logged where the server receives them, API events around the calls; concurrent writers toward one peer IP are not driven (they serialise on a mutex the virtual clock cannot see through)",
+                             "up to 16384 peers is not reached: the allocator's wrap-around is covered only by the model (MC_clientconn), the driver uses 6 peers"]),
     "C16": dict(title="TCP relay: bind once, by the owner, within 30 s, bytes intact", level="model_checking",
                 run=core_run(["MC_tcp"], ["GEN_tcpA", "GEN_tcpB"]),
                 assumptions=["control, relayed, peer and data connections are in-memory buffered streams (harness/memstream.go); connection ids are aliased by order of appearance",
